@@ -142,6 +142,11 @@ func ApplyEnv(w *hx.World, e *EnvStep) {
 					if _, ok := d["size"]; ok {
 						d["size"] = float64(99)
 					}
+					if names, ok := d["names"].(map[string]any); ok {
+						if _, ok := names["singular"]; ok {
+							names["singular"] = "edited"
+						}
+					}
 					if sel, ok := d["selector"].(map[string]any); ok {
 						if _, ok := sel["app"]; ok {
 							sel["app"] = "edited"
